@@ -3,11 +3,11 @@ SPECIFICATION TraceSpec
 CONSTANTS
   Clients = {1, 2, 3, 4}
   Keys = {1, 2, 3, 4, 5, 6}
-  Senders = {1, 2, 3, 4, 5, 6, 7, 8, 9, 10, 11, 12, 13}
-  Targets = {1, 2, 3, 4, 5, 10, 11, 12, 13}
+  Senders = {1, 2, 3, 4, 5, 6, 7, 8, 9, 10, 11, 12, 13, 15}
+  Targets = {1, 2, 3, 4, 5, 10, 11, 12, 13, 15}
   DnsPort = {2, 5, 8}
-  Allowed = {10, 12}
-  Unsendable = {}
+  Allowed = {10, 12, 15}
+  Unsendable = {15}
   DisarmFirst = TRUE
   T = 300
   DNST = 17000
